@@ -9,6 +9,7 @@ import DaskModel.Model.Rewrite
 import DaskModel.Model.FuseSlice
 import DaskModel.Model.OptBW
 import DaskModel.Model.GufuncIO
+import DaskModel.Model.UnifyPostIO
 import DaskModel.Generated.FuseRules
 open Dask
 
@@ -510,6 +511,6 @@ def table : List (String × Handler) := [
   ("lol", HlgDrv.hLol), ("culldeps", HlgDrv.hCullDeps), ("task", HlgDrv.hTask), ("blocks", HlgDrv.hBlocks),
   ("optbw", HlgDrv.hOptBW), ("fuseroots", HlgDrv.hFuseRoots),
   ("fuseann", HlgDrv.hFuseAnn), ("fuserules", HlgDrv.hFuseRules), ("hlgcull", HlgDrv.hHlgCull)]
-  ++ Dask.GufuncIO.handlers
+  ++ Dask.GufuncIO.handlers ++ Dask.UnifyPostIO.handlers
 
 def main : IO Unit := runDriver table
